@@ -157,6 +157,10 @@ pub struct NoiseCase {
     /// Garbage handshake bytes (if None: a real handshake, then `stream_bytes` instead of ciphertext).
     handshake_bytes: Option<Vec<u8>>,
     stream_bytes: Vec<u8>,
+    /// Fragmentation of what the victim reads: at most this many bytes per poll (0 = one spurious Pending), cycled 64 times;
+    /// empty = everything at once.
+    #[serde(default)]
+    read_script: Vec<u16>,
 }
 
 pub fn gen_noise(ch: &mut Choices) -> NoiseCase {
@@ -175,17 +179,28 @@ pub fn gen_noise(ch: &mut Choices) -> NoiseCase {
         v
     };
     let hs = ch.bool().then(|| bytes(ch));
-    NoiseCase { server: ch.bool(), handshake_bytes: hs, stream_bytes: bytes(ch) }
+    let read_script: Vec<u16> = match ch.below(5) {
+        0 | 1 => vec![],
+        2 => vec![1],
+        3 => vec![2, 1, 0],
+        _ => (0..1 + ch.below(6)).map(|_| ch.pick(&[0u16, 1, 2, 3, 15, 16, 17, 33, 1000])).collect(),
+    };
+    NoiseCase { server: ch.bool(), handshake_bytes: hs, stream_bytes: bytes(ch), read_script }
 }
 
 pub fn check_noise(case: &NoiseCase, st: &mut Stats) -> Result<(), String> {
     det::run(|| async {
         let life = det::Life::new();
         let ctx = life.child();
+        // the script is long enough for every byte of the largest case to arrive in pieces
+        let script: Vec<u16> = if case.read_script.is_empty() { vec![] } else { case.read_script.iter().copied().cycle().take(case.read_script.len() * 40_000).collect() };
+        if !script.is_empty() {
+            st.class("victim_reads_in_fragments");
+        }
         let res: Result<(), String> = async {
             match &case.handshake_bytes {
                 Some(hs) => {
-                    let inbound = Pipe::unbounded();
+                    let inbound = Pipe::new(usize::MAX, vec![], script.clone());
                     let (end, _other) = duplex(Pipe::unbounded(), inbound.clone());
                     inbound.inject(hs);
                     inbound.close_write();
@@ -204,7 +219,7 @@ pub fn check_noise(case: &NoiseCase, st: &mut Stats) -> Result<(), String> {
                     }
                 }
                 None => {
-                    let a2b = Pipe::unbounded();
+                    let a2b = Pipe::new(usize::MAX, vec![], script.clone());
                     let (ea, eb) = duplex(a2b.clone(), Pipe::unbounded());
                     let (ra, rb) = tokio::join!(NoiseStream::client(&ctx, ea), NoiseStream::server(&ctx, eb));
                     let (_sa, mut sb) = (ra.map_err(|e| format!("{e:?}"))?, rb.map_err(|e| format!("{e:?}"))?);
